@@ -1,7 +1,7 @@
 //! Operations: parse an input line, run the real crate in-process (every call
 //! under catch_unwind), print the question and the crate's answer on one line.
 #![allow(deprecated)]
-use crate::pools::{class_name, class_of_name};
+use crate::pools::{class_name, class_of_name, ALL_CLASSES};
 use std::borrow::Cow;
 use std::collections::HashMap;
 use std::panic::{catch_unwind, AssertUnwindSafe};
@@ -72,6 +72,37 @@ impl CustomDs {
     }
 }
 
+/// A ZERO-SIZED caller-supplied data source (nothing about the type `D` — its size, its being `Copy`, … — may stand
+/// in for "this is the built-in data"): upper-case ASCII is R, ASCII digits are AN, `<` `>` are the only bracket pair,
+/// the nine explicit formatting characters keep their class, everything else is L.  `zst_spec()` is the same source
+/// as a `DsSpec`, which is what goes over the line protocol to the driver.
+pub struct ZstDs;
+impl BidiDataSource for ZstDs {
+    fn bidi_class(&self, c: char) -> BidiClass {
+        match c {
+            'A'..='Z' => BidiClass::R,
+            '0'..='9' => BidiClass::AN,
+            '<' | '>' => BidiClass::ON,
+            _ => format_class(c).unwrap_or(BidiClass::L),
+        }
+    }
+    fn bidi_matched_opening_bracket(&self, c: char) -> Option<BidiMatchedOpeningBracket> {
+        match c {
+            '<' => Some(BidiMatchedOpeningBracket { opening: '<', is_open: true }),
+            '>' => Some(BidiMatchedOpeningBracket { opening: '<', is_open: false }),
+            _ => None,
+        }
+    }
+}
+pub fn zst_spec() -> DsSpec {
+    let mut entries: Vec<(u32, BidiClass, Option<(u32, bool)>)> = vec![];
+    for c in 'A'..='Z' { entries.push((c as u32, BidiClass::R, None)); }
+    for c in '0'..='9' { entries.push((c as u32, BidiClass::AN, None)); }
+    entries.push(('<' as u32, BidiClass::ON, Some(('<' as u32, true))));
+    entries.push(('>' as u32, BidiClass::ON, Some(('<' as u32, false))));
+    DsSpec { entries, dflt: BidiClass::L }
+}
+
 pub fn format_class(c: char) -> Option<BidiClass> {
     use BidiClass::*;
     match c as u32 {
@@ -124,6 +155,9 @@ pub enum Input {
     Meta9 { units: Vec<u32>, dir: Dir, ds: Option<DsSpec>, line: (usize, usize) },
     /// C10: whole text vs each paragraph substring; single-paragraph type
     Meta10 { enc: Enc, text: Vec<u32>, dir: Dir },
+    /// C01 on inputs far longer than the Model can replay: a paragraph `a×N SP tail` (N about 70,000, beyond 2^16 code
+    /// units) must give `tail` the levels it gets in `a SP tail`
+    MetaLong { enc: Enc, tail: Vec<u32>, dir: Dir, n: usize },
     /// C12: same abstract class sequence through different characters
     Meta12 { enc: Enc, dir: Dir, text_a: Vec<u32>, ds_a: DsSpec, text_b: Vec<u32>, ds_b: DsSpec },
     /// C13: replace the content of a matched isolate
@@ -323,6 +357,12 @@ pub fn parse_line(line: &str) -> Option<(String, String, Input)> {
             ds: parse_ds(key(&f, "DS")),
             line: (key(&f, "la").parse().unwrap(), key(&f, "lb").parse().unwrap()),
         },
+        "metalong" => Input::MetaLong {
+            enc: parse_enc(key(&f, "enc")),
+            tail: parse_hexlist(key(&f, "T")),
+            dir: parse_dir(key(&f, "dir")),
+            n: key(&f, "n").parse().unwrap(),
+        },
         "meta10" => Input::Meta10 {
             enc: parse_enc(key(&f, "enc")),
             text: parse_hexlist(key(&f, "T")),
@@ -384,7 +424,7 @@ fn analyse8<D: BidiDataSource>(ds: &D, s: &str, api: Api, dir: Dir) -> Analysis 
                 })
                 .collect();
             Analysis {
-                ii_same: ii.original_classes == info.original_classes && ii.paragraphs == info.paragraphs,
+                ii_same: plain(&ii.original_classes, &[], &ii.paragraphs) == plain(&info.original_classes, &[], &info.paragraphs),
                 has_rtl: info.has_rtl(),
                 classes: info.original_classes,
                 levels: info.levels,
@@ -426,7 +466,7 @@ fn analyse16<D: BidiDataSource>(ds: &D, s: &[u16], api: Api, dir: Dir) -> Analys
                 })
                 .collect();
             Analysis {
-                ii_same: ii.original_classes == info.original_classes && ii.paragraphs == info.paragraphs,
+                ii_same: plain(&ii.original_classes, &[], &ii.paragraphs) == plain(&info.original_classes, &[], &info.paragraphs),
                 has_rtl: info.has_rtl(),
                 classes: info.original_classes,
                 levels: info.levels,
@@ -456,6 +496,8 @@ fn analyse16<D: BidiDataSource>(ds: &D, s: &[u16], api: Api, dir: Dir) -> Analys
 pub fn analyse(enc: Enc, api: Api, dir: Dir, text: &[u32], ds: &Option<DsSpec>) -> Option<Analysis> {
     guard(|| match (enc, ds) {
         (Enc::U8, None) => analyse8(&HardcodedBidiData, &to_string8(text), api, dir),
+        (Enc::U8, Some(spec)) if *spec == zst_spec() => analyse8(&ZstDs, &to_string8(text), api, dir),
+        (Enc::U16, Some(spec)) if *spec == zst_spec() => analyse16(&ZstDs, &to_units16(text), api, dir),
         (Enc::U8, Some(spec)) => analyse8(&CustomDs::new(spec), &to_string8(text), api, dir),
         (Enc::U16, None) => analyse16(&HardcodedBidiData, &to_units16(text), api, dir),
         (Enc::U16, Some(spec)) => analyse16(&CustomDs::new(spec), &to_units16(text), api, dir),
@@ -477,8 +519,64 @@ fn analysis_fields(a: &Analysis) -> String {
     s
 }
 
+/// plain data of an analysis, compared with std's `==` on numbers (never with the crate's own `PartialEq`, which a
+/// change to the crate could make blind)
+type Plain = (Vec<u8>, Vec<u8>, Vec<(usize, usize, u8)>);
+fn cls_idx(c: BidiClass) -> u8 {
+    ALL_CLASSES.iter().position(|x| *x == c).unwrap() as u8
+}
+fn plain(classes: &[BidiClass], levels: &[Level], paras: &[ParagraphInfo]) -> Plain {
+    (
+        classes.iter().map(|c| cls_idx(*c)).collect(),
+        levels.iter().map(|l| l.number()).collect(),
+        paras.iter().map(|p| (p.range.start, p.range.end, p.level.number())).collect(),
+    )
+}
+
 /// does the convenience constructor agree with the explicit built-in source?
 fn conv_same(enc: Enc, api: Api, dir: Dir, text: &[u32]) -> Option<bool> {
+    guard(|| conv_same_plain(enc, api, dir, text))
+}
+
+fn conv_same_plain(enc: Enc, api: Api, dir: Dir, text: &[u32]) -> bool {
+    let hd = HardcodedBidiData;
+    let one = |l: Level, n: usize| vec![ParagraphInfo { range: 0..n, level: l }];
+    match (enc, api) {
+        (Enc::U8, Api::B) => {
+            let s = to_string8(text);
+            let (a, b) = (BidiInfo::new(&s, dir.level()), BidiInfo::new_with_data_source(&hd, &s, dir.level()));
+            let (c, d) = (InitialInfo::new(&s, dir.level()), InitialInfo::new_with_data_source(&hd, &s, dir.level()));
+            plain(&a.original_classes, &a.levels, &a.paragraphs) == plain(&b.original_classes, &b.levels, &b.paragraphs)
+                && a.text == b.text
+                && plain(&c.original_classes, &[], &c.paragraphs) == plain(&d.original_classes, &[], &d.paragraphs)
+                && plain(&c.original_classes, &[], &c.paragraphs) == plain(&a.original_classes, &[], &a.paragraphs)
+        }
+        (Enc::U8, Api::P) => {
+            let s = to_string8(text);
+            let (a, b) = (ParagraphBidiInfo::new(&s, dir.level()), ParagraphBidiInfo::new_with_data_source(&hd, &s, dir.level()));
+            plain(&a.original_classes, &a.levels, &one(a.paragraph_level, s.len())) == plain(&b.original_classes, &b.levels, &one(b.paragraph_level, s.len()))
+                && a.text == b.text && a.is_pure_ltr == b.is_pure_ltr
+        }
+        (Enc::U16, Api::B) => {
+            let s = to_units16(text);
+            let (a, b) = (utf16::BidiInfo::new(&s, dir.level()), utf16::BidiInfo::new_with_data_source(&hd, &s, dir.level()));
+            let (c, d) = (utf16::InitialInfo::new(&s, dir.level()), utf16::InitialInfo::new_with_data_source(&hd, &s, dir.level()));
+            plain(&a.original_classes, &a.levels, &a.paragraphs) == plain(&b.original_classes, &b.levels, &b.paragraphs)
+                && a.text == b.text
+                && plain(&c.original_classes, &[], &c.paragraphs) == plain(&d.original_classes, &[], &d.paragraphs)
+                && plain(&c.original_classes, &[], &c.paragraphs) == plain(&a.original_classes, &[], &a.paragraphs)
+        }
+        (Enc::U16, Api::P) => {
+            let s = to_units16(text);
+            let (a, b) = (utf16::ParagraphBidiInfo::new(&s, dir.level()), utf16::ParagraphBidiInfo::new_with_data_source(&hd, &s, dir.level()));
+            plain(&a.original_classes, &a.levels, &one(a.paragraph_level, s.len())) == plain(&b.original_classes, &b.levels, &one(b.paragraph_level, s.len()))
+                && a.text == b.text && a.is_pure_ltr == b.is_pure_ltr
+        }
+    }
+}
+
+#[allow(dead_code)]
+fn conv_same_old(enc: Enc, api: Api, dir: Dir, text: &[u32]) -> Option<bool> {
     guard(|| match (enc, api) {
         (Enc::U8, Api::B) => {
             let s = to_string8(text);
@@ -506,6 +604,8 @@ fn conv_same(enc: Enc, api: Api, dir: Dir, text: &[u32]) -> Option<bool> {
 }
 
 pub struct LineOut {
+    /// the measured line asked a second time, after other lines were asked of the same object, gave the same answers
+    pub rep: bool,
     pub rl: Option<Vec<Level>>,
     pub rpc: Option<Vec<Level>>,
     pub vr: Option<(Vec<Level>, Vec<LevelRun>)>,
@@ -515,6 +615,23 @@ pub struct LineOut {
 
 macro_rules! line_calls {
     ($info:expr, $para:expr, $a:expr, $b:expr, $is_b:expr, $conv:expr) => {{
+        // warm-up: other lines are asked of the SAME analysis object first (the whole paragraph, its first unit range
+        // up to the line start, the line end up to the paragraph end) so that a result remembered from a previous
+        // call cannot pass for the answer to this one
+        let (wa, wb) = ($para.range.start, $para.range.end);
+        for (x, y) in [(wa, wb), (wa, $a), ($b, wb)] {
+            if x < y && (x, y) != ($a, $b) {
+                let _ = guard(|| {
+                    if $is_b {
+                        let i = $info.0.as_ref().unwrap();
+                        (i.reordered_levels($para, x..y).len(), i.visual_runs($para, x..y).1.len(), i.reorder_line($para, x..y).len())
+                    } else {
+                        let i = $info.1.as_ref().unwrap();
+                        (i.reordered_levels(x..y).len(), i.visual_runs(x..y).1.len(), i.reorder_line(x..y).len())
+                    }
+                });
+            }
+        }
         let rl = guard(|| if $is_b { $info.0.as_ref().unwrap().reordered_levels($para, $a..$b) } else { $info.1.as_ref().unwrap().reordered_levels($a..$b) });
         let rpc = guard(|| if $is_b { $info.0.as_ref().unwrap().reordered_levels_per_char($para, $a..$b) } else { $info.1.as_ref().unwrap().reordered_levels_per_char($a..$b) });
         let vr = guard(|| if $is_b { $info.0.as_ref().unwrap().visual_runs($para, $a..$b) } else { $info.1.as_ref().unwrap().visual_runs($a..$b) });
@@ -527,7 +644,18 @@ macro_rules! line_calls {
             let borrowed = matches!(c, Cow::Borrowed(_));
             ($conv(&c), borrowed)
         });
-        LineOut { rl, rpc, vr, druns, ro }
+        // ... and the measured line once more
+        let rl2 = guard(|| if $is_b { $info.0.as_ref().unwrap().reordered_levels($para, $a..$b) } else { $info.1.as_ref().unwrap().reordered_levels($a..$b) });
+        let vr2 = guard(|| if $is_b { $info.0.as_ref().unwrap().visual_runs($para, $a..$b) } else { $info.1.as_ref().unwrap().visual_runs($a..$b) });
+        let ro2 = guard(|| {
+            let c = if $is_b { $info.0.as_ref().unwrap().reorder_line($para, $a..$b) } else { $info.1.as_ref().unwrap().reorder_line($a..$b) };
+            $conv(&c)
+        });
+        let lv = |v: &Option<Vec<Level>>| v.as_ref().map(|x| x.iter().map(|l| l.number()).collect::<Vec<u8>>());
+        let rep = lv(&rl) == lv(&rl2)
+            && vr.as_ref().map(|v| (lv(&Some(v.0.clone())), v.1.clone())) == vr2.as_ref().map(|v| (lv(&Some(v.0.clone())), v.1.clone()))
+            && ro.as_ref().map(|v| v.0.clone()) == ro2;
+        LineOut { rep, rl, rpc, vr, druns, ro }
     }};
 }
 
@@ -642,6 +770,36 @@ fn fnv(h: &mut u64, s: &str) {
     }
 }
 
+/// minimal serde deserializer: one integer, offered to the visitor with a chosen integer type
+#[cfg(feature = "serde")]
+struct IntDe {
+    n: i64,
+    kind: u8,
+}
+#[cfg(feature = "serde")]
+impl<'de> serde::Deserializer<'de> for IntDe {
+    type Error = serde::de::value::Error;
+    fn deserialize_any<V: serde::de::Visitor<'de>>(self, v: V) -> Result<V::Value, Self::Error> {
+        match self.kind {
+            0 => v.visit_u8(self.n as u8),
+            1 => v.visit_u16(self.n as u16),
+            2 => v.visit_u32(self.n as u32),
+            3 => v.visit_u64(self.n as u64),
+            4 => v.visit_i8(self.n as i8),
+            5 => v.visit_i16(self.n as i16),
+            6 => v.visit_i32(self.n as i32),
+            _ => v.visit_i64(self.n),
+        }
+    }
+    fn deserialize_newtype_struct<V: serde::de::Visitor<'de>>(self, _name: &'static str, v: V) -> Result<V::Value, Self::Error> {
+        v.visit_newtype_struct(self)
+    }
+    serde::forward_to_deserialize_any! {
+        bool i8 i16 i32 i64 i128 u8 u16 u32 u64 u128 f32 f64 char str string bytes byte_buf option unit unit_struct
+        seq tuple tuple_struct map struct enum identifier ignored_any
+    }
+}
+
 pub fn run(id: &str, mode: &str, input: &Input) -> String {
     let head = format!("{} {}", id, mode);
     match input {
@@ -677,7 +835,7 @@ pub fn run(id: &str, mode: &str, input: &Input) -> String {
                     let pl = an.paras.get(*para).map(|p| p.level.number()).unwrap_or(0);
                     let o = &ctx.out;
                     format!(
-                        "{} => C={} L={} PL={} HR={} RL={} RPC={} VL={} RUNS={} DRUNS={} RO={} BOR={}",
+                        "{} => C={} L={} PL={} HR={} RL={} RPC={} VL={} RUNS={} DRUNS={} RO={} BOR={} REP={}",
                         q,
                         classes_str(&an.classes),
                         levels_str(&an.levels),
@@ -690,6 +848,7 @@ pub fn run(id: &str, mode: &str, input: &Input) -> String {
                         or_panic(o.druns.as_ref().map(|v| runs_str(v))),
                         or_panic(o.ro.as_ref().map(|v| hexlist(&v.0))),
                         o.ro.as_ref().map(|v| (v.1 as u8).to_string()).unwrap_or_else(|| "PANIC".into()),
+                        o.rep as u8,
                     )
                 }
                 None => format!("{} => PANIC", q),
@@ -718,6 +877,20 @@ pub fn run(id: &str, mode: &str, input: &Input) -> String {
                         let f2 = unicode_bidi::get_base_direction_full_with_data_source(&hd, s.as_str());
                         assert!(d1 == d2 && f1 == f2, "convenience base direction differs");
                         (d1, f1)
+                    }
+                    (Enc::U8, Some(spec)) if *spec == zst_spec() => {
+                        let s = to_string8(text);
+                        (
+                            unicode_bidi::get_base_direction_with_data_source(&ZstDs, s.as_str()),
+                            unicode_bidi::get_base_direction_full_with_data_source(&ZstDs, s.as_str()),
+                        )
+                    }
+                    (Enc::U16, Some(spec)) if *spec == zst_spec() => {
+                        let s = to_units16(text);
+                        (
+                            unicode_bidi::get_base_direction_with_data_source(&ZstDs, s.as_slice()),
+                            unicode_bidi::get_base_direction_full_with_data_source(&ZstDs, s.as_slice()),
+                        )
                     }
                     (Enc::U8, Some(spec)) => {
                         let s = to_string8(text);
@@ -823,6 +996,16 @@ pub fn run(id: &str, mode: &str, input: &Input) -> String {
                 let il: Vec<String> = t.indices_lengths().map(|(i, l)| format!("{}:{}", i, l)).collect();
                 let ch: Vec<String> = t.chars().map(|c| format!("{:X}", c as u32)).collect();
                 let cl: Vec<String> = t.chars().map(|c| <[u16] as TextSource>::char_len(c).to_string()).collect();
+                // nth / nth_back / count / last / skip+step_by / rev / size_hint from fresh iterators
+                let h = |c: Option<char>| c.map(|c| format!("{:X}", c as u32)).unwrap_or_else(|| "-".to_string());
+                let nth: Vec<String> = (0..=t.len() + 1).map(|k| h(t.chars().nth(k))).collect();
+                let nthb: Vec<String> = (0..=t.len() + 1).map(|k| h(t.chars().nth_back(k))).collect();
+                let step: Vec<String> = t.chars().skip(1).step_by(2).map(|c| format!("{:X}", c as u32)).collect();
+                let rev: Vec<String> = t.chars().rev().map(|c| format!("{:X}", c as u32)).collect();
+                let nchars = t.chars().count();
+                let (lo, hi) = t.chars().size_hint();
+                let hint_ok = lo <= nchars && hi.map_or(true, |x| x >= nchars);
+                let meth = format!("{}|{}|{}|{}|{}|{}|{}", nth.join(","), nthb.join(","), step.join(","), rev.join(","), nchars, h(t.chars().last()), hint_ok as u8);
                 let mut it = t.chars();
                 let mut outs = vec![];
                 for o in ops.chars() {
@@ -845,8 +1028,8 @@ pub fn run(id: &str, mode: &str, input: &Input) -> String {
                     }
                 }
                 format!(
-                    "LEN={} CA={} CI={} IL={} CH={} CL={} IT={} SUB={}",
-                    TextSource::len(t), ca.join(","), ci.join(","), il.join(","), ch.join(","), cl.join(","), outs.join(","), sub.join(",")
+                    "LEN={} CA={} CI={} IL={} CH={} CL={} IT={} SUB={} METH={}",
+                    TextSource::len(t), ca.join(","), ci.join(","), il.join(","), ch.join(","), cl.join(","), outs.join(","), sub.join(","), meth
                 )
             });
             format!("{} => {}", q, or_panic(r))
@@ -919,7 +1102,24 @@ pub fn run(id: &str, mode: &str, input: &Input) -> String {
                     })
                     .collect();
                 let streq = (lv == lv.number().to_string().as_str()) && (lv == lv.number().to_string()) && (lv == "x");
-                s += &format!(" RAISE={} RAISEX={} LOWER={} CMP={} STREQ={}", raise.join(","), raisex.join(","), lower.join(","), cmp, streq as u8);
+                // every relational operator against every level (PartialOrd / PartialEq are separate impls from Ord)
+                let mut rel_ok = true;
+                for m in 0..=126u8 {
+                    let o = Level::new(m).unwrap();
+                    let (a, b) = (lv.number(), m);
+                    rel_ok &= (lv < o) == (a < b) && (lv <= o) == (a <= b) && (lv > o) == (a > b) && (lv >= o) == (a >= b)
+                        && (lv == o) == (a == b) && (lv != o) == (a != b)
+                        && lv.partial_cmp(&o) == Some(a.cmp(&b)) && lv.max(o).number() == a.max(b) && lv.min(o).number() == a.min(b);
+                }
+                // string equality must also be FALSE where it should: other numbers, padded / signed / wrapped forms
+                let mut nstreq = 0u32;
+                for m in 0..=300u32 {
+                    if m != lv.number() as u32 && (lv == m.to_string().as_str() || lv == m.to_string()) { nstreq += 1; }
+                }
+                for bad in [format!("0{}", lv.number()), format!("+{}", lv.number()), format!(" {}", lv.number()), format!("{}", lv.number() as u32 + 256), String::new(), "X".to_string(), "xx".to_string()] {
+                    if lv == bad.as_str() || lv == bad { nstreq += 1; }
+                }
+                s += &format!(" RAISE={} RAISEX={} LOWER={} CMP={} STREQ={} REL={} NSTREQ={}", raise.join(","), raisex.join(","), lower.join(","), cmp, streq as u8, rel_ok as u8, nstreq);
                 s
             });
             format!("{} => {}", q, or_panic(r))
@@ -969,8 +1169,29 @@ pub fn run(id: &str, mode: &str, input: &Input) -> String {
                     }
                 }
             }
+            // the answer must not depend on the ORDER of the lookups (a remembered interval or cache would show):
+            // the same table again descending, in a stride permutation, and ping-ponging around every run boundary
+            let asc: Vec<u8> = {
+                let mut v = vec![255u8; 0x110000];
+                for (a, b, c) in &runs { for cp in *a..=*b { v[cp as usize] = cls_idx(*c); } }
+                v
+            };
+            let mut order_bad: Vec<u32> = vec![];
+            let mut probe = |cp: u32, bad: &mut Vec<u32>| {
+                if let Some(c) = char::from_u32(cp) {
+                    let got = guard(|| (cls_idx(unicode_bidi::bidi_class(c)), cls_idx(HardcodedBidiData.bidi_class(c))));
+                    if got != Some((asc[cp as usize], asc[cp as usize])) && asc[cp as usize] != 255 && bad.len() < 8 { bad.push(cp); }
+                }
+            };
+            for cp in (0..=0x10FFFFu32).rev() { probe(cp, &mut order_bad); }
+            for i in 0..0x110000u32 { probe((i.wrapping_mul(7919)) % 0x110000, &mut order_bad); }
+            for (a, b, _) in &runs {
+                for &(x, y) in &[(*a, a.wrapping_sub(1)), (*b, *b + 1), (*b + 1, *b), (a.wrapping_sub(1), *a), (*b, *a), (*a, *b)] {
+                    if x <= 0x10FFFF && y <= 0x10FFFF { probe(x, &mut order_bad); probe(y, &mut order_bad); probe(x, &mut order_bad); }
+                }
+            }
             let s: Vec<String> = runs.iter().map(|(a, b, c)| format!("{:X}-{:X}:{}", a, b, class_name(*c))).collect();
-            format!("{} => SAME={} PANICS={} R={}", q, same as u8, hexlist(&panics), s.join(";"))
+            format!("{} => SAME={} PANICS={} ORDER={} R={}", q, same as u8, hexlist(&panics), if order_bad.is_empty() { "same".to_string() } else { hexlist(&order_bad) }, s.join(";"))
         }
         Input::Brk => {
             let q = format!("{} brk", head);
@@ -1137,6 +1358,20 @@ pub fn run(id: &str, mode: &str, input: &Input) -> String {
                 }
             }
             format!("{} => A={} B={}", q, a_parts.join("|"), b_parts.join("|"))
+        }
+        Input::MetaLong { enc, tail, dir, n } => {
+            let q = format!("{} metalong enc={} dir={} n={} T={}", head, enc_tag(*enc), dir.tag(), n, hexlist(tail));
+            let tail_levels = |prefix_len: usize| -> String {
+                let mut t: Vec<u32> = vec![0x61; prefix_len];
+                t.push(0x20);
+                let tail_units: Vec<u32> = if *enc == Enc::U16 { tail.clone() } else { tail.clone() };
+                t.extend(tail_units);
+                match analyse(*enc, Api::B, *dir, &t, &None) {
+                    Some(a) => format!("l={};p={}", levels_str(&a.levels[prefix_len + 1..]), a.paras.len()),
+                    None => "PANIC".to_string(),
+                }
+            };
+            format!("{} => A={} B={}", q, tail_levels(*n), tail_levels(1))
         }
         Input::Meta10 { enc, text, dir } => {
             let q = format!("{} meta10 enc={} T={} dir={}", head, enc_tag(*enc), hexlist(text), dir.tag());
@@ -1360,6 +1595,21 @@ pub fn run(id: &str, mode: &str, input: &Input) -> String {
                         Err(_) => false,
                     });
                     if ok != Some(true) {
+                        bad.push(n);
+                    }
+                }
+                // a Level written by ANY format must read back: a minimal deserializer that hands the number to the
+                // visitor as u8 / u16 / u32 / u64 / i8 / i16 / i32 / i64 (what binary and signed-integer formats do;
+                // serde_json alone only ever calls visit_u64)
+                for n in 0..=126u8 {
+                    for kind in 0..8u8 {
+                        let got = guard(|| <Level as serde::Deserialize>::deserialize(IntDe { n: n as i64, kind }).ok().map(|l| l.number()));
+                        if got != Some(Some(n)) && !bad.contains(&n) {
+                            bad.push(n);
+                        }
+                    }
+                    let v = guard(|| serde_json::to_value(Level::new(n).unwrap()).ok().and_then(|v| v.as_u64()));
+                    if v != Some(Some(n as u64)) && !bad.contains(&n) {
                         bad.push(n);
                     }
                 }
